@@ -321,6 +321,41 @@ fn c09_group(spec0: &MpcSpec, seed: u64, runs: usize) -> (Vec<Violation>, u64, u
     (v, evals, steps)
 }
 
+/// The engine's wire encoding must give every value of a type the same length: the messages carry
+/// secret bits, MACs, keys and labels, and with random coins a 128-bit value is "small" only with
+/// probability 2^-64, so a value-dependent (variable-width) encoding never shows in executed runs.
+/// Shapes of all message payloads, filled with zeros, with ones and with all-ones values.
+fn c09_encoding() -> Vec<Violation> {
+    use polytune::verif::wire_encode;
+    let sv = json!({"encoding": true});
+    let mut v = vec![];
+    let mut cmp = |what: &str, lens: Vec<Result<Vec<u8>, String>>| {
+        let l: Vec<Option<usize>> = lens.iter().map(|x| x.as_ref().ok().map(|b| b.len())).collect();
+        if l.iter().any(|x| x.is_none()) || l.windows(2).any(|w| w[0] != w[1]) {
+            v.push(viol(
+                "encoded-length-depends-on-values",
+                &format!("encoded-length-depends-on-values:{what}"),
+                format!("the engine encodes {what} holding zeros / ones / all-ones values in {l:?} bytes: the length of a message reveals the magnitude of the secret values in it"),
+                &sv,
+            ));
+        }
+    };
+    let k = 7usize;
+    let u: [u128; 3] = [0, 1, u128::MAX];
+    cmp("Vec<u128>", u.iter().map(|x| wire_encode(&vec![*x; k])).collect());
+    cmp("Vec<(bool, u128)>", u.iter().map(|x| wire_encode(&vec![(*x != 0, *x); k])).collect());
+    cmp("Vec<Option<(bool, u128)>>", u.iter().map(|x| wire_encode(&vec![Some((*x != 0, *x)); k])).collect());
+    cmp("Vec<Option<u128>>", u.iter().map(|x| wire_encode(&vec![Some(*x); k])).collect());
+    cmp("Vec<(bool, bool, u128, u128)>", u.iter().map(|x| wire_encode(&vec![(*x != 0, *x == 1, *x, !*x); k])).collect());
+    cmp("Vec<(Vec<bool>, Vec<u128>)>", u.iter().map(|x| wire_encode(&vec![(vec![*x != 0; 4], vec![*x; 4]); k])).collect());
+    cmp("Vec<(bool, Vec<(u128, u128)>)> (share)", u.iter().map(|x| wire_encode(&vec![(*x != 0, vec![(*x, !*x); 3]); k])).collect());
+    cmp("Vec<u32>", [0u32, 1, u32::MAX].iter().map(|x| wire_encode(&vec![*x; k])).collect());
+    cmp("Vec<u8>", [0u8, 1, u8::MAX].iter().map(|x| wire_encode(&vec![*x; 32])).collect());
+    cmp("Vec<[u8; 32]>", [0u8, 1, u8::MAX].iter().map(|x| wire_encode(&vec![[*x; 32]; k])).collect());
+    cmp("Vec<Vec<u8>> (rows)", [0u8, 1, u8::MAX].iter().map(|x| wire_encode(&vec![vec![*x; 40]; k])).collect());
+    v
+}
+
 impl Check for C09 {
     fn id(&self) -> &'static str {
         "C09"
@@ -329,7 +364,7 @@ impl Check for C09 {
         "exploration"
     }
     fn rule(&self) -> String {
-        "each case fixes one public configuration (circuit, n, evaluator, output set) and executes it R times (R=6 quick, 12 thorough) with inputs all-0 / all-1 / random, fresh coins and a fresh schedule; per ordered pair the sequence of (byte length, phase label) of all messages must be identical across the R runs; evaluations = simulated runs; distinct = public configurations".into()
+        "each case fixes one public configuration (circuit, n, evaluator, output set) and executes it R times (R=6 quick, 12 thorough) with inputs all-0 / all-1 / random, fresh coins and a fresh schedule; per ordered pair the sequence of (byte length, phase label) of all messages must be identical across the R runs. In addition the engine's own wire serializer (hook) encodes every payload shape of the protocol filled with zeros, with ones and with all-ones values: the lengths must be equal (with random coins a small 128-bit value never occurs, so a variable-width encoding would not show in executed runs); evaluations = simulated runs; distinct = public configurations".into()
     }
     fn assumptions(&self) -> Vec<String> {
         vec!["cross-peer interleaving legitimately varies with the schedule and is not compared; per ordered pair the message sequence is".into()]
@@ -339,9 +374,20 @@ impl Check for C09 {
             Tier::Quick => (96, 6),
             Tier::Thorough => (3000, 12),
         };
-        (0..k).map(|k| json!({"seed": seed, "k": k, "runs": r})).collect()
+        let mut v: Vec<Value> = (0..k).map(|k| json!({"seed": seed, "k": k, "runs": r})).collect();
+        v.push(json!({"seed": seed, "k": 0, "encoding": true}));
+        v
     }
     fn run_case(&self, case: &Value, cx: &CaseCx) -> CaseOut {
+        if case.get("encoding").is_some() {
+            let mut out = CaseOut::default();
+            cx.begin(&json!({"encoding": true}));
+            out.evals = 1;
+            out.count("payload_shapes_encoded_with_extreme_values", 11);
+            out.distinct.push(0xe9c0d1);
+            out.violations = c09_encoding();
+            return out;
+        }
         let seed = case["seed"].as_u64().unwrap();
         let k = case["k"].as_u64().unwrap();
         let runs = case["runs"].as_u64().unwrap() as usize;
@@ -365,6 +411,9 @@ impl Check for C09 {
         out
     }
     fn replay(&self, spec: &Value) -> Vec<Violation> {
+        if spec.get("encoding").is_some() {
+            return c09_encoding();
+        }
         let Ok(base) = serde_json::from_value::<MpcSpec>(spec["base"].clone()) else {
             return vec![];
         };
